@@ -1,10 +1,20 @@
 import NurbsVerif.Lemmas.Fitting
+import NurbsVerif.Lemmas.FitParams
+import NurbsVerif.Lemmas.FitSurf
+import NurbsVerif.Lemmas.FitApprox
+import NurbsVerif.Lemmas.FitApproxEval
+import Mathlib.Algebra.Order.Field.Rat
 
 /-!
 # C11  Fitted curves and surfaces meet interpolation and least-squares conditions
 
 Model: `Geomdl.computeParams`, `computeKnotVector`, `buildCoeffMatrix`, `interpolateCurve`,
 `interpolateSurface`, `approximateCurve` (chord lengths – square roots in the code – are inputs).
+
+Non-singularity of the collocation / normal matrices is a hypothesis throughout ("whenever the
+solver returns").  `Geomdl.lsqError` / `Geomdl.lsqErrorEval` (Lemmas/FitApprox*.lean) are the
+spec-level sums `Σ_{k=1}^{nd−2} |Q_k − C(ū_k)|²` (with `C` written as `Σ_j N_{j,p} P_j` through
+`basis_function_one`, resp. with `C` the evaluated curve point of A3.1).
 -/
 namespace C11
 open Geomdl Lin Finset
@@ -63,5 +73,340 @@ theorem approximateCurve_endpoints (p : ℕ) (pts : List (List K)) (cds : List K
     refine ⟨by simp, ?_⟩
     rw [List.getLast?_append]
     simp
+
+/-! ### parameters (`compute_params_curve`) -/
+
+/-- … end at 1 (the total chord length is not zero) … -/
+theorem params_last (cds : List K) (h : sumL cds ≠ 0) : (computeParams cds).getD cds.length 0 = 1 :=
+  computeParams_last cds h
+
+/-- … there are as many parameters as data points, and for non-negative chord lengths with positive
+    sum they are non-decreasing and lie in `[0, 1]` … -/
+theorem params_monotone (cds : List K) (h : ∀ x ∈ cds, 0 ≤ x) (hs : 0 < sumL cds) :
+    (computeParams cds).length = cds.length + 1 ∧
+    (∀ i j, i ≤ j → j ≤ cds.length → (computeParams cds).getD i 0 ≤ (computeParams cds).getD j 0) ∧
+    (∀ i, i ≤ cds.length → 0 ≤ (computeParams cds).getD i 0 ∧ (computeParams cds).getD i 0 ≤ 1) :=
+  ⟨computeParams_length cds, fun i j hij hj => computeParams_mono cds h hs i j hij hj,
+   fun i hi => computeParams_range cds h hs i hi⟩
+
+/-- … and strictly increasing when consecutive data points are distinct (positive chord lengths). -/
+theorem params_strictMono (cds : List K) (h : ∀ x ∈ cds, 0 < x) (i j : ℕ) (hij : i < j) (hj : j ≤ cds.length) :
+    (computeParams cds).getD i 0 < (computeParams cds).getD j 0 :=
+  computeParams_strictMono cds h i j hij hj
+
+/-! ### the averaged knot vector (`compute_knot_vector`, Eq. 9.8) -/
+
+/-- The knot vector of the interpolation has `n + p + 1` knots: `p+1` zeros, then the averages
+    `invp · (ū_{j} + … + ū_{j+p-1})` (`j = 1 … n-p-1`), then `p+1` ones (as a function padded with `1`). -/
+theorem knotVector_spec (p n : ℕ) (uk : List K) (invp : K) (hpn : p + 1 ≤ n) :
+    (computeKnotVector p n uk invp).length = n + p + 1 ∧
+    (∀ i, i ≤ p → fnOf (computeKnotVector p n uk invp) i = 0) ∧
+    (∀ i, p < i → i < n → fnOf (computeKnotVector p n uk invp) i = invp * ∑ r ∈ range p, uk.getD (i - p + r) 0) ∧
+    (∀ i, n ≤ i → fnOf (computeKnotVector p n uk invp) i = 1) := by
+  refine ⟨computeKnotVector_length p n uk invp hpn, (computeKnotVector_clamped p n uk invp hpn).1, ?_,
+    (computeKnotVector_clamped p n uk invp hpn).2⟩
+  intro i h1 h2
+  rw [computeKnotVector_fn p n uk invp hpn, if_neg (by omega), if_pos h2]
+
+/-- The averaged knot vector is non-decreasing for non-decreasing non-negative parameters and
+    `invp ≥ 0`, provided the last average does not exceed one: `invp · p · ū_{n-2} ≤ 1` (true for
+    `invp = 1/p` exactly and parameters `≤ 1`; `invp` is the double `1.0/p` in the code). -/
+theorem knotVector_monotone (p n : ℕ) (uk : List K) (invp : K) (hpn : p + 1 ≤ n)
+    (hinv : 0 ≤ invp) (h0 : ∀ i, 0 ≤ uk.getD i 0)
+    (hmono : ∀ i j, i ≤ j → j < n → uk.getD i 0 ≤ uk.getD j 0)
+    (hlast : invp * (p : K) * uk.getD (n - 2) 0 ≤ 1) :
+    Monotone (fnOf (computeKnotVector p n uk invp)) :=
+  computeKnotVector_mono p n uk invp hpn hinv h0 hmono hlast
+
+/-- `interpolate_curve` on data with distinct consecutive points builds a non-decreasing knot vector
+    (chord lengths positive, `invp ≥ 0` and `invp · p · ū_{n-2} ≤ 1`). -/
+theorem interpolateCurve_knots_monotone (p : ℕ) (cds : List K) (invp : K) (hpn : p ≤ cds.length)
+    (hpos : ∀ x ∈ cds, 0 < x) (hinv : 0 ≤ invp)
+    (hlast : invp * (p : K) * (computeParams cds).getD (cds.length - 1) 0 ≤ 1) :
+    Monotone (fnOf (computeKnotVector p (cds.length + 1) (computeParams cds) invp)) := by
+  have hnn : ∀ x ∈ cds, (0:K) ≤ x := fun x hx => le_of_lt (hpos x hx)
+  by_cases hne : cds = []
+  · subst hne
+    have hp0 : p = 0 := by simpa using hpn
+    subst hp0
+    exact computeKnotVector_mono 0 1 _ invp (by omega) hinv (fun i => by
+        rcases i with _ | i <;> simp [computeParams, sumL]) (fun i j hij hj => by
+        have : i = 0 ∧ j = 0 := by omega
+        rw [this.1, this.2]) (by simp)
+  · have hs : 0 < sumL cds := by rw [sumL_eq_sum]; exact List.sum_pos _ hpos hne
+    apply computeKnotVector_mono p (cds.length + 1) _ invp (by omega) hinv
+    · intro i
+      by_cases hi : i ≤ cds.length
+      · exact (computeParams_range cds hnn hs i hi).1
+      · rw [List.getD_eq_default _ _ (by rw [computeParams_length]; omega)]
+    · intro i j hij hj
+      exact computeParams_mono cds hnn hs i j hij (by omega)
+    · exact hlast
+
+/-- **requested degree**: the interpolating curve has as many control points as data points and
+    `n + p + 1` knots, i.e. degree `p`. -/
+theorem interpolateCurve_degree (p : ℕ) (pts : List (List K)) (cds : List K) (invp : K)
+    (kv : List K) (cp : List (List K)) (hpn : p + 1 ≤ pts.length)
+    (h : interpolateCurve p pts cds invp = some (kv, cp)) :
+    cp.length = pts.length ∧ kv.length = cp.length + p + 1 := by
+  unfold interpolateCurve at h
+  simp only [] at h
+  split at h
+  · rename_i cp' hsolve
+    injection h with h'
+    injection h' with hkv hcp
+    subst hkv; subst hcp
+    have := (luSolve_shape _ _ _ hsolve).1
+    exact ⟨this, by rw [computeKnotVector_length p _ _ _ hpn, this]⟩
+  · exact absurd h (by simp)
+
+/-! ### surface interpolation -/
+
+/-- **`fitting.interpolate_surface`** (two passes of curve interpolation): whenever all solver calls
+    return, the surface evaluated at the `i`-th averaged `u`-parameter and the `j`-th averaged
+    `v`-parameter is the data point `Q_{i,j}` (flat index `j + size_v · i`), every coordinate. -/
+theorem interpolateSurface_interpolates (pu pv su sv : ℕ) (pts : List (List K)) (cdsU cdsV : List (List K))
+    (invpu invpv : K) (d : ℕ) (kvu kvv : List K) (cp : List (List K))
+    (hlen : pts.length = su * sv) (hpu : pu + 1 ≤ su) (hpv : pv + 1 ≤ sv) (hP : NetOk d pts) (hd : 0 < d)
+    (h : interpolateSurface pu pv su sv pts cdsU cdsV invpu invpv = some (kvu, kvv, cp))
+    (i : ℕ) (hi : i < su) (j : ℕ) (hj : j < sv) (c : ℕ) (hc : c < d) :
+    (surfacePoint pu pv (fnOf kvu) (fnOf kvv) su sv cp
+        ((averageParams cdsU su).getD i 0) ((averageParams cdsV sv).getD j 0)).getD c 0
+      = (ptsGet pts (j + sv * i)).getD c 0 :=
+  Geomdl.interpolateSurface_interpolates pu pv su sv pts cdsU cdsV invpu invpv d kvu kvv cp hlen hpu hpv hP hd h
+    i hi j hj c hc
+
+/-- **requested degrees**: the interpolating surface has `su · sv` control points and the two averaged
+    knot vectors with `su + pu + 1` and `sv + pv + 1` knots, i.e. degrees `pu`, `pv`. -/
+theorem interpolateSurface_degree (pu pv su sv : ℕ) (pts : List (List K)) (cdsU cdsV : List (List K))
+    (invpu invpv : K) (kvu kvv : List K) (cp : List (List K)) (hpu : pu + 1 ≤ su) (hpv : pv + 1 ≤ sv)
+    (h : interpolateSurface pu pv su sv pts cdsU cdsV invpu invpv = some (kvu, kvv, cp)) :
+    cp.length = su * sv ∧ kvu.length = su + pu + 1 ∧ kvv.length = sv + pv + 1 := by
+  obtain ⟨h1, h2, h3⟩ := interpolateSurface_shape pu pv su sv pts cdsU cdsV invpu invpv kvu kvv cp h
+  subst h1; subst h2
+  exact ⟨h3, computeKnotVector_length pu su _ _ hpu, computeKnotVector_length pv sv _ _ hpv⟩
+
+/-- The averaged parameters of a surface direction (`compute_params_surface`): as many as data
+    points in that direction, start at 0, end at 1, non-decreasing (every line of the data has
+    non-negative chord lengths with positive sum). -/
+theorem surface_params_spec (cdsList : List (List K)) (n : ℕ) (hn : 0 < n) (hne : cdsList ≠ [])
+    (h : ∀ c ∈ cdsList, c.length + 1 = n ∧ (∀ x ∈ c, 0 ≤ x) ∧ 0 < sumL c) :
+    (averageParams cdsList n).length = n ∧ (averageParams cdsList n).getD 0 0 = 0 ∧
+    (averageParams cdsList n).getD (n - 1) 0 = 1 ∧
+    ∀ i j, i ≤ j → j < n → (averageParams cdsList n).getD i 0 ≤ (averageParams cdsList n).getD j 0 :=
+  ⟨averageParams_length cdsList n, averageParams_first cdsList n hn,
+   averageParams_last cdsList n hn hne (fun c hc => ⟨(h c hc).1, ne_of_gt (h c hc).2.2⟩),
+   fun i j hij hj => averageParams_mono cdsList n h i j hij hj⟩
+
+/-! ### least squares -/
+
+/-- **Algebraic core of least squares** (any field): if `x` solves the normal equations
+    `NᵀN x = Nᵀ r` (`N` with `m` rows and `n` columns), then for every `y`
+    `‖N y − r‖² = ‖N x − r‖² + ‖N (y − x)‖²`. -/
+theorem least_squares_pythagoras {F : Type} [Field F] (m n : ℕ) (N : ℕ → ℕ → F) (r x y : ℕ → F)
+    (h : ∀ i, i < n → ∑ j ∈ range n, (∑ k ∈ range m, N k i * N k j) * x j = ∑ k ∈ range m, N k i * r k) :
+    ∑ k ∈ range m, (∑ j ∈ range n, N k j * y j - r k) ^ 2
+      = ∑ k ∈ range m, (∑ j ∈ range n, N k j * x j - r k) ^ 2
+        + ∑ k ∈ range m, (∑ j ∈ range n, N k j * (y j - x j)) ^ 2 :=
+  Lsq.pythagoras m n N r x y h
+
+/-- … hence over an ordered field a solution of the normal equations minimises `‖N y − r‖²`. -/
+theorem least_squares_minimises (m n : ℕ) (N : ℕ → ℕ → K) (r x y : ℕ → K)
+    (h : ∀ i, i < n → ∑ j ∈ range n, (∑ k ∈ range m, N k i * N k j) * x j = ∑ k ∈ range m, N k i * r k) :
+    ∑ k ∈ range m, (∑ j ∈ range n, N k j * x j - r k) ^ 2
+      ≤ ∑ k ∈ range m, (∑ j ∈ range n, N k j * y j - r k) ^ 2 :=
+  Lsq.minimises m n N r x y h
+
+/-- **`fitting.approximate_curve` solves the normal equations** (Eq. 9.65–9.67): whenever the solver
+    returns, the control polygon is `Q₀ :: x ++ [Q_m]` with `nc − 2` interior points and, for every
+    coordinate `c`, `Σ_j (Σ_k N_{i}(ū_k) N_{j}(ū_k)) x_j = Σ_k N_{i}(ū_k) Rk_k` for every interior basis
+    function `i` (sums over interior data points `k` and interior control points `j`; `N` as computed
+    by `basis_function_one`; `Rk_k = Q_k − N_0(ū_k) Q₀ − N_{nc−1}(ū_k) Q_m`). -/
+theorem approximateCurve_normal_equations (p : ℕ) (pts : List (List K)) (cds : List K) (nc : ℕ) (fl : K → ℕ)
+    (kv : List K) (cp : List (List K)) (hnc : nc ≤ pts.length)
+    (h : approximateCurve p pts cds nc fl = some (kv, cp)) :
+    ∃ x : List (List K), cp = [pts.headD []] ++ x ++ [pts.getLastD []] ∧ x.length = nc - 2 ∧
+      ∀ c, c < (pts.headD []).length → ∀ i, i < nc - 2 →
+        ∑ j ∈ range (nc - 2),
+            (∑ k ∈ range (pts.length - 2),
+              basisFunOne p (fnOf kv) kv.length (1 + i) ((computeParams cds).getD (1 + k) 0)
+                * basisFunOne p (fnOf kv) kv.length (1 + j) ((computeParams cds).getD (1 + k) 0)) * ent x j c
+          = ∑ k ∈ range (pts.length - 2),
+              basisFunOne p (fnOf kv) kv.length (1 + i) ((computeParams cds).getD (1 + k) 0)
+                * ((pts.getD (1 + k) []).getD c 0
+                    - (pts.headD []).getD c 0 * basisFunOne p (fnOf kv) kv.length 0 ((computeParams cds).getD (1 + k) 0)
+                    - (pts.getLastD []).getD c 0 * basisFunOne p (fnOf kv) kv.length (nc - 1) ((computeParams cds).getD (1 + k) 0)) := by
+  obtain ⟨_, x, h1, h2, _, h4⟩ := approximateCurve_normal p pts cds nc fl kv cp hnc h
+  exact ⟨x, h1, h2, h4⟩
+
+/-- **residual form of the normal equations**: the residual `Q_k − C(ū_k)` of the returned curve
+    (`C(u) = Σ_j N_{j,p}(u) P_j` over ALL control points) summed over the interior data points
+    against any interior basis function `N_{i,p}` vanishes, coordinate by coordinate. -/
+theorem approximateCurve_residual_orthogonal (p : ℕ) (pts : List (List K)) (cds : List K) (nc : ℕ) (fl : K → ℕ)
+    (kv : List K) (cp : List (List K)) (hnc2 : 2 ≤ nc) (hnc : nc ≤ pts.length)
+    (h : approximateCurve p pts cds nc fl = some (kv, cp)) (i : ℕ) (hi1 : 1 ≤ i) (hi2 : i + 1 < nc)
+    (c : ℕ) (hc : c < (pts.headD []).length) :
+    ∑ k ∈ Ico 1 (pts.length - 1), basisFunOne p (fnOf kv) kv.length i ((computeParams cds).getD k 0) *
+      ((ptsGet pts k).getD c 0
+        - ∑ j ∈ range cp.length, basisFunOne p (fnOf kv) kv.length j ((computeParams cds).getD k 0) * (ptsGet cp j).getD c 0) = 0 :=
+  approximateCurve_orthogonal p pts cds nc fl kv cp hnc2 hnc h i hi1 hi2 c hc
+
+/-- **`fitting.approximate_curve` minimises**: among all control polygons `Q₀ :: y ++ [Q_m]` with
+    `nc − 2` interior points, the returned one has the least
+    `Σ_{k=1}^{nd−2} Σ_c (Q_{k,c} − Σ_j N_{j,p}(ū_k) P_{j,c})²` (`Geomdl.lsqError`). -/
+theorem approximateCurve_minimises (p : ℕ) (pts : List (List K)) (cds : List K) (nc : ℕ) (fl : K → ℕ)
+    (kv : List K) (cp : List (List K)) (hnc2 : 2 ≤ nc) (hnc : nc ≤ pts.length)
+    (h : approximateCurve p pts cds nc fl = some (kv, cp)) (y : List (List K)) (hy : y.length = nc - 2) :
+    lsqError p (fnOf kv) kv.length (computeParams cds) pts (pts.headD []).length cp
+      ≤ lsqError p (fnOf kv) kv.length (computeParams cds) pts (pts.headD []).length
+          ([pts.headD []] ++ y ++ [pts.getLastD []]) :=
+  Geomdl.approximateCurve_minimises p pts cds nc fl kv cp hnc2 hnc h y hy
+
+/-- The same for the EVALUATED curve (`curvePoint`, A3.1 at the span found by the linear search):
+    `Σ_k |Q_k − C(ū_k)|²` (`Geomdl.lsqErrorEval`) is minimal, given a non-decreasing knot vector, interior
+    parameters inside the half-open domain, and that `basis_function_one` returns the Cox–de Boor values
+    there (hypothesis `hB`; this is theorem `basisFunOne_eq_cdb` of C03). -/
+theorem approximateCurve_minimises_evaluated (p : ℕ) (pts : List (List K)) (cds : List K) (nc : ℕ) (fl : K → ℕ)
+    (kv : List K) (cp : List (List K)) (d : ℕ) (hnc2 : 2 ≤ nc) (hpn : p + 1 ≤ nc) (hnc : nc ≤ pts.length)
+    (hP : NetOk d pts) (h : approximateCurve p pts cds nc fl = some (kv, cp))
+    (hm : Monotone (fnOf kv))
+    (hdom : ∀ k, 1 ≤ k → k + 1 < pts.length →
+      fnOf kv p ≤ (computeParams cds).getD k 0 ∧ (computeParams cds).getD k 0 < fnOf kv nc)
+    (hB : ∀ k, 1 ≤ k → k + 1 < pts.length → ∀ j, j < nc →
+      basisFunOne p (fnOf kv) kv.length j ((computeParams cds).getD k 0)
+        = Blossom.cdb (fnOf kv) p j ((computeParams cds).getD k 0))
+    (y : List (List K)) (hy : y.length = nc - 2) (hyd : NetOk d y) :
+    lsqErrorEval p (fnOf kv) (computeParams cds) pts d cp
+      ≤ lsqErrorEval p (fnOf kv) (computeParams cds) pts d ([pts.headD []] ++ y ++ [pts.getLastD []]) :=
+  Geomdl.approximateCurve_minimises_evaluated p pts cds nc fl kv cp d hnc2 hpn hnc hP h hm hdom hB y hy hyd
+
+/-- The knot vector of the approximation has `nc + p + 1` knots and is clamped (`p+1` zeros, `p+1` ones),
+    so the curve has `nc` control points and degree `p`. -/
+theorem approximateCurve_shape (p : ℕ) (pts : List (List K)) (cds : List K) (nc : ℕ) (fl : K → ℕ)
+    (kv : List K) (cp : List (List K)) (hnc2 : 2 ≤ nc) (hpn : p + 1 ≤ nc) (hnc : nc ≤ pts.length)
+    (h : approximateCurve p pts cds nc fl = some (kv, cp)) :
+    cp.length = nc ∧ kv.length = nc + p + 1 ∧ (∀ i, i ≤ p → fnOf kv i = 0) ∧ (∀ i, nc ≤ i → fnOf kv i = 1) := by
+  obtain ⟨hkv, x, hcp, hxl, _, _⟩ := approximateCurve_normal p pts cds nc fl kv cp hnc h
+  subst hkv
+  refine ⟨by rw [hcp]; simp [hxl]; omega, computeKnotVector2_length p _ nc _ fl hpn,
+    (computeKnotVector2_clamped p _ nc _ fl hpn).1, (computeKnotVector2_clamped p _ nc _ fl hpn).2⟩
+
+/-- **The approximating curve interpolates the end data points**: `C(0) = Q₀` and `C(1) = Q_m`
+    (evaluated curve, every coordinate), for a non-decreasing knot vector whose first and last spans
+    are not empty (`0 < U_{p+1}`, `U_{nc-1} < 1`). -/
+theorem approximateCurve_interpolates_ends (p : ℕ) (pts : List (List K)) (cds : List K) (nc : ℕ) (fl : K → ℕ)
+    (kv : List K) (cp : List (List K)) (d : ℕ) (hnc2 : 2 ≤ nc) (hpn : p + 1 ≤ nc) (hnc : nc ≤ pts.length)
+    (hP : NetOk d pts) (h : approximateCurve p pts cds nc fl = some (kv, cp))
+    (hm : Monotone (fnOf kv)) (h0 : 0 < fnOf kv (p + 1)) (h1 : fnOf kv (nc - 1) < 1) (c : ℕ) :
+    (curvePoint p (fnOf kv) cp 0).getD c 0 = (pts.headD []).getD c 0 ∧
+    (curvePoint p (fnOf kv) cp 1).getD c 0 = (pts.getLastD []).getD c 0 :=
+  Geomdl.approximateCurve_interpolates_ends p pts cds nc fl kv cp d hnc2 hpn hnc hP h hm h0 h1 c
+
+/-! ### the knot vector of the approximation (`compute_knot_vector2`) and data with distinct consecutive points -/
+
+/-- `compute_knot_vector2` is non-decreasing for non-decreasing parameters in `[0, 1]` (`fl` = `int(·)`:
+    `fl x ≤ x < fl x + 1` on non-negative `x`; at most `nd + p` control points). -/
+theorem knotVector2_monotone (p nd nc : ℕ) (uk : List K) (fl : K → ℕ) (hfl : IsFloor fl)
+    (hpn : p + 1 ≤ nc) (hnd : nc ≤ nd + p)
+    (h0 : ∀ i, 0 ≤ uk.getD i 0) (h1 : ∀ i, uk.getD i 0 ≤ 1)
+    (hmono : ∀ i j, i ≤ j → j < nd → uk.getD i 0 ≤ uk.getD j 0) :
+    Monotone (fnOf (computeKnotVector2 p nd nc uk fl)) :=
+  computeKnotVector2_mono p nd nc uk fl hfl hpn hnd h0 h1 hmono
+
+/-- For strictly increasing parameters from 0 to 1 its first and last spans are not empty. -/
+theorem knotVector2_ends (p nd nc : ℕ) (uk : List K) (fl : K → ℕ) (hfl : IsFloor fl)
+    (hp : 1 ≤ p) (hpn : p + 1 ≤ nc) (hnd : nc ≤ nd)
+    (hfirst : uk.getD 0 0 = 0) (hlast : uk.getD (nd - 1) 0 = 1)
+    (hstrict : ∀ i j, i < j → j < nd → uk.getD i 0 < uk.getD j 0) :
+    0 < fnOf (computeKnotVector2 p nd nc uk fl) (p + 1) ∧ fnOf (computeKnotVector2 p nd nc uk fl) (nc - 1) < 1 :=
+  computeKnotVector2_ends p nd nc uk fl hfl hp hpn hnd hfirst hlast hstrict
+
+/-- **End point interpolation for data with distinct consecutive points** (positive chord lengths):
+    whenever the solver returns, `C(0) = Q₀` and `C(1) = Q_m` for the evaluated approximating curve –
+    no hypothesis on the knot vector. -/
+theorem approximateCurve_interpolates_ends_distinct (p : ℕ) (pts : List (List K)) (cds : List K) (nc : ℕ) (fl : K → ℕ)
+    (kv : List K) (cp : List (List K)) (d : ℕ) (hfl : IsFloor fl) (hp : 1 ≤ p) (hpn : p + 1 ≤ nc)
+    (hnc : nc ≤ pts.length) (hlen : cds.length + 1 = pts.length) (hpos : ∀ x ∈ cds, 0 < x)
+    (hP : NetOk d pts) (h : approximateCurve p pts cds nc fl = some (kv, cp)) (c : ℕ) :
+    (curvePoint p (fnOf kv) cp 0).getD c 0 = (pts.headD []).getD c 0 ∧
+    (curvePoint p (fnOf kv) cp 1).getD c 0 = (pts.getLastD []).getD c 0 :=
+  Geomdl.approximateCurve_interpolates_ends_distinct p pts cds nc fl kv cp d hfl hp hpn hnc hlen hpos hP h c
+
+/-- **Least squares for the evaluated curve, data with distinct consecutive points**: besides "the
+    solver returns" the only hypothesis left is `hB` (`basis_function_one` = Cox–de Boor at the interior
+    parameters, theorem `basisFunOne_eq_cdb` of C03). -/
+theorem approximateCurve_minimises_evaluated_distinct (p : ℕ) (pts : List (List K)) (cds : List K) (nc : ℕ) (fl : K → ℕ)
+    (kv : List K) (cp : List (List K)) (d : ℕ) (hfl : IsFloor fl) (hp : 1 ≤ p) (hpn : p + 1 ≤ nc)
+    (hnc : nc ≤ pts.length) (hlen : cds.length + 1 = pts.length) (hpos : ∀ x ∈ cds, 0 < x)
+    (hP : NetOk d pts) (h : approximateCurve p pts cds nc fl = some (kv, cp))
+    (hB : ∀ k, 1 ≤ k → k + 1 < pts.length → ∀ j, j < nc →
+      basisFunOne p (fnOf kv) kv.length j ((computeParams cds).getD k 0)
+        = Blossom.cdb (fnOf kv) p j ((computeParams cds).getD k 0))
+    (y : List (List K)) (hy : y.length = nc - 2) (hyd : NetOk d y) :
+    lsqErrorEval p (fnOf kv) (computeParams cds) pts d cp
+      ≤ lsqErrorEval p (fnOf kv) (computeParams cds) pts d ([pts.headD []] ++ y ++ [pts.getLastD []]) :=
+  Geomdl.approximateCurve_minimises_evaluated_distinct p pts cds nc fl kv cp d hfl hp hpn hnc hlen hpos hP h hB y hy hyd
+
+/-! ### non-vacuity: the hypotheses hold on concrete inputs (exact rationals) -/
+
+/-- the floor used by the driver satisfies `IsFloor` -/
+example : IsFloor (fun x : ℚ => x.floor.toNat) := by
+  intro x hx
+  have h1 : (0:ℤ) ≤ x.floor := Rat.le_floor_iff.mpr (by simpa using hx)
+  have h2 : ((x.floor.toNat : ℕ) : ℚ) = ((x.floor : ℤ) : ℚ) := by
+    rw [← Int.cast_natCast, Int.toNat_of_nonneg h1]
+  refine ⟨by rw [h2]; exact Rat.floor_le x, ?_⟩
+  rw [h2]
+  have := Rat.lt_floor_add_one x
+  push_cast at this
+  exact this
+
+/-- interpolation data with the shape hypothesis: 7 points in the plane -/
+example : NetOk 2 ([[0,0],[1,2],[2,3],[4,3],[5,1],[6,0],[7,2]] : List (List ℚ)) := by
+  intro pt hpt; simp at hpt; rcases hpt with h | h | h | h | h | h | h <;> simp [h]
+
+/-- curve interpolation returns on these data (degree 3, chord lengths 2,1,2,2,1,2) -/
+example : (interpolateCurve 3 ([[0,0],[1,2],[2,3],[4,3],[5,1],[6,0],[7,2]] : List (List ℚ)) [2,1,2,2,1,2] (1/3)).isSome = true := by
+  decide +kernel
+
+/-- positive chord lengths, `invp = 1/p`: the hypotheses of `interpolateCurve_knots_monotone` -/
+example : (∀ x ∈ ([2,1,2,2,1,2] : List ℚ), 0 < x) ∧ (0:ℚ) ≤ 1/3 ∧
+    (1/3 : ℚ) * ((3:ℕ) : ℚ) * (computeParams ([2,1,2,2,1,2] : List ℚ)).getD (6 - 1) 0 ≤ 1 := by
+  refine ⟨by decide +kernel, by decide +kernel, by decide +kernel⟩
+
+/-- surface interpolation returns on a 3 × 4 grid of data points (degrees 2, 2) -/
+example :
+    (interpolateSurface 2 2 3 4
+      ([[0,0,0],[0,1,1],[0,2,0],[0,3,2], [1,0,1],[1,1,2],[1,2,1],[1,3,0], [2,0,0],[2,1,1],[2,2,3],[2,3,1]] : List (List ℚ))
+      [[1,1],[1,2],[2,1],[1,3]] [[1,1,2],[1,2,1],[2,1,1]] (1/2) (1/2)).isSome = true := by decide +kernel
+
+/-- approximation (7 data points, degree 2, 4 control points): the solver returns, the knot vector is
+    sorted, its first and last spans are not empty, 4 control points are returned -/
+example :
+    (match approximateCurve 2 ([[0,0],[1,2],[2,3],[4,3],[5,1],[6,0],[7,2]] : List (List ℚ)) [2,1,2,2,1,2] 4
+        (fun x => x.floor.toNat) with
+     | some (kv, cp) => decide (kv = [0,0,0,2/5,1,1,1]) && isSortedB kv && decide (0 < fnOf kv 3) && decide (fnOf kv 3 < 1)
+          && decide (cp.length = 4)
+     | none => false) = true := by decide +kernel
+
+/-- `Monotone (fnOf kv)` is decidable on concrete knot vectors through `isSortedB` -/
+example : Monotone (fnOf ([0,0,0,2/5,1,1,1] : List ℚ)) := fnOf_monotone_of_isSortedB _ (by decide +kernel)
+
+/-- the interior parameters of that example lie in the half-open domain `[U_p, U_nc)` … -/
+example : ∀ k, 1 ≤ k → k + 1 < 7 →
+    fnOf ([0,0,0,2/5,1,1,1] : List ℚ) 2 ≤ (computeParams ([2,1,2,2,1,2] : List ℚ)).getD k 0 ∧
+    (computeParams ([2,1,2,2,1,2] : List ℚ)).getD k 0 < fnOf ([0,0,0,2/5,1,1,1] : List ℚ) 4 := by
+  intro k h1 h2
+  have hk : k = 1 ∨ k = 2 ∨ k = 3 ∨ k = 4 ∨ k = 5 := by omega
+  rcases hk with rfl | rfl | rfl | rfl | rfl <;> decide +kernel
+
+/-- … and `basis_function_one` returns the Cox–de Boor values there (hypothesis `hB`) -/
+example : ∀ k, 1 ≤ k → k + 1 < 7 → ∀ j, j < 4 →
+    basisFunOne 2 (fnOf ([0,0,0,2/5,1,1,1] : List ℚ)) 7 j ((computeParams ([2,1,2,2,1,2] : List ℚ)).getD k 0)
+      = Blossom.cdb (fnOf ([0,0,0,2/5,1,1,1] : List ℚ)) 2 j ((computeParams ([2,1,2,2,1,2] : List ℚ)).getD k 0) := by
+  intro k h1 h2 j hj
+  have hk : k = 1 ∨ k = 2 ∨ k = 3 ∨ k = 4 ∨ k = 5 := by omega
+  have hj' : j = 0 ∨ j = 1 ∨ j = 2 ∨ j = 3 := by omega
+  rcases hk with rfl | rfl | rfl | rfl | rfl <;> rcases hj' with rfl | rfl | rfl | rfl <;> decide +kernel
 
 end C11
